@@ -1,7 +1,7 @@
 """Oracle C15 -- MCMC driver: samples in the prior box, log-probs match, interrupted runs resume.
 
 Sub-checks (each case replayable from its `case_seed`):
-  fresh      MCMCSampler.mcmc_emcee on a small sharp model (7 model configurations: FLCDM / FwCDM / oLCDM, fixed
+  fresh      MCMCSampler.mcmc_emcee on a small sharp model (11 model configurations: FLCDM / FwCDM / w0waCDM / oLCDM, fixed
              parameters, ppn, lambda_mst, anisotropy) with no backend / in-memory / HDF5 backend: returned shape
              n_walkers*n_run x num_param, every sample inside the prior box (bounds looked up BY NAME in the
              dictionaries handed to the sampler, in param_names() order), stored log-prob == likelihood re-evaluated
@@ -51,9 +51,9 @@ class Stop(Exception):
 # ------------------------------------------------------------------------------------------------
 # model configurations (rebuilt identically in the child from (cfg, mseed))
 # ------------------------------------------------------------------------------------------------
-BOX = dict(h0=(20., 140.), om=(0.06, 0.85), w=(-1.9, -0.35), ok=(-0.28, 0.31), gamma_ppn=(0.4, 1.7), lambda_mst=(0.55, 1.6),
+BOX = dict(h0=(20., 140.), om=(0.06, 0.85), w=(-1.9, -0.35), w0=(-1.9, -0.35), wa=(-1.4, 0.3), ok=(-0.28, 0.31), gamma_ppn=(0.4, 1.7), lambda_mst=(0.55, 1.6),
            a_ani=(0.12, 4.8))
-TRUTH = dict(h0=70., om=0.3, w=-1.0, ok=0.0, gamma_ppn=1.0, lambda_mst=1.0, a_ani=1.5)
+TRUTH = dict(h0=70., om=0.3, w=-1.0, w0=-1.0, wa=0.0, ok=0.0, gamma_ppn=1.0, lambda_mst=1.0, a_ani=1.5)
 CONFIGS = {
     "A": dict(cosmology="FLCDM", names=["h0", "om"], lenses=["DdtGaussian", "DdtGaussian"], model={}),
     "B": dict(cosmology="FwCDM", names=["h0", "om", "w"], lenses=["DdtGaussian", "DdtDdGaussian"], model={}),
@@ -63,15 +63,22 @@ CONFIGS = {
     "E": dict(cosmology="oLCDM", names=["h0", "om", "ok"], lenses=["DdtGaussian", "DdtDdGaussian"], model={}),
     "F": dict(cosmology="FLCDM", names=["h0", "om", "gamma_ppn"], lenses=["DdtDdGaussian", "DdtDdGaussian"],
               model=dict(ppn_sampling=True)),
+    # only part of the cosmological parameters sampled, the rest fixed (a cache keyed on a subset of the parameters shows here)
+    "H": dict(cosmology="w0waCDM", names=["w0", "wa"], fixed=dict(h0=70., om=0.3), lenses=["DdtGaussian", "DdtDdGaussian"], model={}),
+    "I": dict(cosmology="w0waCDM", names=["h0", "om", "w0", "wa"], lenses=["DdtGaussian", "DdtGaussian"], model={}),
+    "J": dict(cosmology="oLCDM", names=["ok"], fixed=dict(h0=70., om=0.3), lenses=["DdtGaussian", "DdtDdGaussian"], model={}),
+    "K": dict(cosmology="FwCDM", names=["w"], fixed=dict(h0=70., om=0.3), lenses=["DdtGaussian", "DdtGaussian"], model={}),
     "G": dict(cosmology="FLCDM", names=["h0", "om", "lambda_mst", "a_ani"], lenses=["DdtGaussian", "IFUKinCov"],
               model=dict(lambda_mst_sampling=True, anisotropy_sampling=True, anisotropy_model="OM")),
 }
-GROUP = dict(h0="cosmo", om="cosmo", w="cosmo", ok="cosmo", gamma_ppn="cosmo", lambda_mst="lens", a_ani="kin")
+GROUP = dict(h0="cosmo", om="cosmo", w="cosmo", w0="cosmo", wa="cosmo", ok="cosmo", gamma_ppn="cosmo", lambda_mst="lens", a_ani="kin")
 C_KMS = 299792.458
 
 
 def astro(cosmology, p):
-    from astropy.cosmology import FlatLambdaCDM, FlatwCDM, LambdaCDM
+    from astropy.cosmology import FlatLambdaCDM, FlatwCDM, LambdaCDM, Flatw0waCDM
+    if cosmology == "w0waCDM":
+        return Flatw0waCDM(H0=p["h0"], Om0=p["om"], w0=p["w0"], wa=p["wa"])
     if cosmology == "FLCDM":
         return FlatLambdaCDM(H0=p["h0"], Om0=p["om"])
     if cosmology == "FwCDM":
@@ -267,6 +274,19 @@ def check_store(rec, S, C, lenses, cfg, chain, logp, inp, ball_inside, mode, tag
                           "stored log-prob != closed-form likelihood evaluated at {param_names()[i]: sample[i]} (%s)" % tag,
                           dict(inp, sample=flat[i], names=names), lp[i], r)
                 break
+    if bad is None and inp.get("mseed") is not None and len(flat):
+        # the stored value must also be what a FRESH likelihood object returns, whatever was evaluated before (reversed order,
+        # a handful of samples): a value that depends on the evaluation history of the sampler's own object is not "the likelihood
+        # re-evaluated at that sample"
+        S2 = build(cfg, inp["mseed"], mode)[0]
+        idx = list(range(len(flat)))[::-1][:: max(1, len(flat) // 8)][:8]
+        for i in idx:
+            v = fscalar(S2.chain.likelihood(list(flat[i])))
+            if not ((v == lp[i]) or abs(v - lp[i]) <= 1e-9 * max(1.0, abs(v))):
+                rec.check(False, "C15:log_prob_history_dependent",
+                          "stored log-prob != likelihood of a fresh, identically configured object at the stored sample (%s)" % tag,
+                          dict(inp, sample=flat[i], names=names), lp[i], v)
+                break
     if bad is not None:
         rec.check(False, "C15:log_prob_mismatch", "stored log-prob != likelihood re-evaluated at the stored sample (%s)" % tag,
                   dict(inp, sample=flat[bad[0]], names=names), bad[2], bad[1])
@@ -294,8 +314,14 @@ def new_backend(kind, path):
 # ------------------------------------------------------------------------------------------------
 # sub-check: fresh
 # ------------------------------------------------------------------------------------------------
+FORCED_FRESH = [("H", "exact"), ("H", "interp"), ("I", "exact"), ("J", "exact"), ("K", "exact"), ("E", "exact"), ("B", "interp"), ("J", "interp")]
+
+
 def check_fresh(rec, rng, inp, wide=False):
     mode, cfg = gen_mode_cfg(rng)
+    k = inp["case_seed"][2]
+    if not wide and k < len(FORCED_FRESH):     # the first cases of every run: SAMPLED cosmologies, part of the parameters fixed
+        cfg, mode = FORCED_FRESH[k]
     mseed = int(rng.integers(1000))
     S, lenses, C = build(cfg, mseed, mode)
     nd = len(C["names"])
